@@ -1749,6 +1749,7 @@ class Frame(ContainerOperand):
                 columns = columns_constructor(
                         columns_labels,
                         name=columns_name,
+                        depth_reference=columns_depth, # if there are no columns, depth cannot be discovered from the labels
                         )
             own_columns = True
 
